@@ -247,4 +247,51 @@ theorem world_branch_delete_succeeds (H : HashFn) (w : W.World) (del : Bytes) (t
   unfold W.branchDelete
   simp [hdel, hlog]
 
+/-- **`switch -c <n>` succeeds** for a valid name no branch file carries, when HEAD's branch has a commit and HEAD's file is there -/
+theorem world_switch_create_succeeds (H : HashFn) (w : W.World) (n : Bytes) (tz : Int) (ts : List Int) (l : W.Loaded) (id : Bytes) (c : Commit)
+    (hn : W.HN w) (hinit : w.inited = true) (hl : W.load H w = some l) (hh : l.headCommit = some (id, c))
+    (hv : Refs.validName n = true) (hnew : W.aget w.heads n = none) (hhead : w.head.isNone = false) :
+    (W.run H w ⟨.switch [] n, tz, ts⟩).2 = .ok none := by
+  have hs := W.loaded_refs_sorted H w l hl hn
+  have hnot : n ∉ Refs.names l.refs := by
+    intro hm
+    have := W.load_names w.heads l.refs (W.load_refs H w l hl) n hm
+    rw [hnew] at this; cases this
+  obtain ⟨h', hadd, _⟩ := add_ok l.refs hs n id hv hnot
+  have hne : n.isEmpty = false := by
+    cases n with
+    | nil => simp [Refs.validName] at hv
+    | cons a b => rfl
+  unfold W.run
+  simp only [hinit, Bool.not_true, Bool.false_eq_true, if_false, W.pathArgs, List.all_nil, hl]
+  unfold W.switchCmd
+  simp [hne]
+  unfold W.switchCreate
+  simp [hh, hadd, hhead]
+
+/-- **`branch -r <n>` succeeds** for a valid name no branch file carries, when HEAD's branch exists with a commit, its log is there
+    and HEAD's file is there -/
+theorem world_branch_rename_succeeds (H : HashFn) (w : W.World) (n : Bytes) (tz : Int) (ts : List Int) (l : W.Loaded) (id : Bytes) (c : Commit)
+    (hn : W.HN w) (hinit : w.inited = true) (hl : W.load H w = some l) (hh : l.headCommit = some (id, c))
+    (hv : Refs.validName n = true) (hnew : W.aget w.heads n = none) (hcur : l.ref ∈ Refs.names l.refs)
+    (hhead : w.head.isNone = false) (hlog : (W.aget w.logHeads l.ref).isNone = false) :
+    (W.run H w ⟨.branch [] false n [], tz, ts⟩).2 = .ok none := by
+  have hs := W.loaded_refs_sorted H w l hl hn
+  have hnot : n ∉ Refs.names l.refs := by
+    intro hm
+    have := W.load_names w.heads l.refs (W.load_refs H w l hl) n hm
+    rw [hnew] at this; cases this
+  obtain ⟨i, hi, _, h', hren, _⟩ := rename_ok l.refs hs l.ref n hv hnot hcur
+  have hne : n.isEmpty = false := by
+    cases n with
+    | nil => simp [Refs.validName] at hv
+    | cons a b => rfl
+  unfold W.run
+  simp only [hinit, Bool.not_true, Bool.false_eq_true, if_false, W.pathArgs, List.all_nil, hl]
+  unfold W.branchCmd
+  simp only [List.length_nil, List.isEmpty_nil, hne, Bool.not_false, Bool.and_true, Bool.true_and, Bool.and_false, Bool.false_and,
+    Bool.or_false, Bool.false_or, Bool.not_true, Bool.false_eq_true, if_false, Bool.or_true]
+  unfold W.branchRename
+  simp [hren, hh, hhead, hlog]
+
 end C10
